@@ -641,6 +641,452 @@ class _Builder:
         self.inlined.append(("adaptor:" + kind, bi))
         return True
 
+    # -- lazy adaptors (map / take_while / filter) and count ---------------------------------
+    LAZY = {"std::iter::Iterator::map": "map", "std::iter::Iterator::take_while": "take_while",
+            "std::iter::Iterator::filter": "filter"}
+
+    def _origin_call(self, view, op):
+        """The call terminator that built the iterator behind operand `op` (through moves, `&mut`, and the identity
+        `IntoIterator::into_iter` of an iterator), as (block index, terminator) -- or None."""
+        pl = op.get("m") or op.get("c")
+        for _ in range(12):
+            if pl is not None and pl["p"] == ["deref"]:
+                pl = {"l": pl["l"], "p": []}      # a reborrow `&mut *r`: what r refers to
+            if pl is None or pl["p"]:
+                return None
+            ds = view.defs().get(pl["l"], [])
+            if len(ds) != 1:
+                return None
+            bi, si, kind, payload = ds[0]
+            if kind == "assign":
+                rv = payload["rv"]
+                if rv["k"] == "ref":
+                    pl = rv["place"]
+                elif rv["k"] == "use":
+                    pl = rv["a"].get("m") or rv["a"].get("c")
+                else:
+                    return None
+                continue
+            if kind == "call":
+                f = call_target(payload)
+                dn = f.get("def") if f else None
+                if dn == "std::iter::IntoIterator::into_iter" and payload["args"]:
+                    a = payload["args"][0]
+                    apl = a.get("m") or a.get("c")
+                    if apl is not None and not apl["p"] and self.locals[apl["l"]]["ty"] == self.locals[pl["l"]]["ty"]:
+                        pl = apl
+                        continue
+                    return None
+                return (bi, payload)
+            return None
+        return None
+
+    def fuse_one(self, view):
+        """One rewrite per call: `next()` on a Map / TakeWhile / Filter whose construction (with its closure) is
+        visible in this body becomes  inner.next()  + the closure call + the adaptor's own decision;  `count()`
+        becomes the counting loop.  The adaptor object itself stays (other consumers still see it)."""
+        for bi in range(len(self.blocks)):
+            blk = self.blocks[bi]
+            t = blk["term"]
+            if t["k"] != "call" or blk["cleanup"] or t.get("t") is None:
+                continue
+            f = call_target(t)
+            if not f:
+                continue
+            dn = f.get("def")
+            line = t.get("line")
+            if dn == "std::iter::Iterator::count" and len(t["args"]) == 1 and "fused" not in t:
+                if self._desugar_count(bi, line):
+                    return True
+                t["fused"] = False
+                continue
+            if dn != "std::iter::Iterator::next" or len(t["args"]) != 1 or "fused" in t:
+                continue
+            rn = f.get("res") or ""
+            if re.match(r"^<std::iter::Zip<", rn):
+                oc = self._origin_call(view, t["args"][0])
+                df = call_target(oc[1]) if oc else None
+                if oc and df and df.get("def") == "std::iter::Iterator::zip" and len(oc[1]["args"]) == 2 and self._fuse_zip(bi, oc[0], line):
+                    return True
+                t["fused"] = False
+                continue
+            if re.match(r"^<std::slice::Iter<", rn) and t.get("inl") == "fuse":
+                if self._fuse_slice_next(view, bi, line):
+                    return True
+                t["fused"] = False
+                continue
+            if not re.match(r"^<std::iter::(Map|TakeWhile|Filter)<", rn):
+                continue
+            oc = self._origin_call(view, t["args"][0])
+            if oc is None:
+                t["fused"] = False
+                continue
+            bd, dt = oc
+            df = call_target(dt)
+            kind = self.LAZY.get(df.get("def") if df else None)
+            if kind is None or len(dt["args"]) != 2:
+                t["fused"] = False
+                continue
+            cid = self.closure_of_operand(dt["args"][1], view)
+            if not cid:
+                t["fused"] = False
+                continue
+            if self._fuse_next(bi, bd, kind, self.facts.bodies[cid], line):
+                return True
+            t["fused"] = False
+        return False
+
+    def _fuse_zip(self, bi, bd, line):
+        """`dest = Zip::next(&mut z)`, z built at block bd by `a.zip(b)`:  a.next() then b.next(), Some((x, y)) when
+        both are Some.  A `&[T]` handed to zip is iterated as a slice (a counter over it)."""
+        dt = self.blocks[bd]["term"]
+        sites = self.__dict__.setdefault("zip_sites", {})
+        if bd not in sites:
+            a_op, b_op = dt["args"][0], dt["args"][1]
+            apl = a_op.get("m") or a_op.get("c")
+            bpl = b_op.get("m") or b_op.get("c")
+            if apl is None or bpl is None or apl["p"] or bpl["p"]:
+                return False
+            zty = self.locals[dt["dest"]["l"]]["ty"]
+            a_ty = self.locals[apl["l"]]["ty"]
+            b_ty = self.locals[bpl["l"]]["ty"]
+            if not zty.startswith("std::iter::Zip<" + a_ty + ", "):
+                return False
+            want_b = zty[len("std::iter::Zip<" + a_ty + ", "):-1]
+            l_a = self.new_local(a_ty)
+            cp = lambda pl: {"k": "use", "a": {"c": {"l": pl["l"], "p": []}}}
+            st = [{"k": "assign", "lhs": {"l": l_a, "p": []}, "rv": cp(apl), "lty": a_ty, "line": line, "exp": False, "inl": "adaptor"}]
+            # two slices walked in step (`s.iter().zip(t)`, the iterator made on the spot and used by nothing else):
+            # one shared counter, so that rules see the two elements of a pair at the same offset
+            view_ = self.snapshot()
+            oa = self._origin_call(view_, a_op)
+            fa = call_target(oa[1]) if oa else None
+            uses_a = sum(1 for blk_ in self.blocks for st_ in blk_["stmts"] if st_["k"] == "assign" and st_["rv"]["k"] == "use" and
+                         (st_["rv"]["a"].get("m") or st_["rv"]["a"].get("c") or {}).get("l") == apl["l"]) + \
+                sum(1 for blk_ in self.blocks if blk_["term"]["k"] == "call" for a_ in blk_["term"]["args"] if (a_.get("m") or a_.get("c") or {}).get("l") == apl["l"])
+            if (fa and fa.get("def") == "core::slice::<impl [T]>::iter" and len(oa[1]["args"]) == 1 and uses_a == 1
+                    and want_b.startswith("std::slice::Iter<") and re.match(r"^&(\[.*\]|std::vec::Vec<.*>)$", b_ty)):
+                sapl = oa[1]["args"][0].get("m") or oa[1]["args"][0].get("c")
+                if sapl is not None and not sapl["p"]:
+                    l_sa = self.new_local(self.locals[sapl["l"]]["ty"])
+                    l_k = self.new_local("usize", name=None)
+                    self.blocks[oa[0]]["stmts"].append({"k": "assign", "lhs": {"l": l_sa, "p": []}, "rv": cp(sapl), "lty": None, "line": line, "exp": False, "inl": "adaptor"})
+                    st.append({"k": "assign", "lhs": {"l": l_k, "p": []}, "rv": {"k": "use", "a": {"k": {"ty": "usize", "val": {"kind": "int", "v": 0}, "dbg": "0"}}},
+                               "lty": "usize", "line": line, "exp": False, "inl": "adaptor"})
+                    self.blocks[bd]["stmts"] += st
+                    sites[bd] = ("lockstep", l_sa, bpl["l"], l_k)
+            if bd in sites:
+                return self._fuse_zip_lockstep(bi, sites[bd], line)
+            l_b = self.new_local(want_b)
+            if b_ty == want_b:
+                st.append({"k": "assign", "lhs": {"l": l_b, "p": []}, "rv": cp(bpl), "lty": b_ty, "line": line, "exp": False, "inl": "adaptor"})
+            elif want_b.startswith("std::slice::Iter<") and re.match(r"^&(\[.*\]|std::vec::Vec<.*>)$", b_ty):
+                l_k = self.new_local("usize", name=None)
+                st.append({"k": "assign", "lhs": {"l": l_k, "p": []}, "rv": {"k": "use", "a": {"k": {"ty": "usize", "val": {"kind": "int", "v": 0}, "dbg": "0"}}},
+                           "lty": "usize", "line": line, "exp": False, "inl": "adaptor"})
+                self.__dict__.setdefault("slice_locals", {})[l_b] = (bpl["l"], l_k)
+            else:
+                return False
+            self.blocks[bd]["stmts"] += st
+            sites[bd] = (l_a, l_b, a_ty, want_b)
+        if sites[bd][0] == "lockstep":
+            return self._fuse_zip_lockstep(bi, sites[bd], line)
+        l_a, l_b, a_ty, b_ty = sites[bd]
+        t = self.blocks[bi]["term"]
+        cont, dest, dty = t["t"], t["dest"], t.get("dty")
+        P = lambda l, *proj: {"l": l, "p": list(proj)}
+        A = lambda lhs, rv, ty=None: {"k": "assign", "lhs": lhs, "rv": rv, "lty": ty, "line": line, "exp": False, "inl": "adaptor"}
+        fnrec = lambda r: {"k": {"ty": "fn", "kind": "fn", "def": "std::iter::Iterator::next", "def_id": "std::iter::Iterator::next", "gargs": [], "res": r}}
+        some = {"dc": "Some", "vi": 1}
+        fld = {"f": 0, "name": "0", "adt": "std::option::Option"}
+        l_ra, l_rb = self.new_local("&mut " + a_ty), self.new_local("&mut " + b_ty)
+        l_na, l_nb = self.new_local("std::option::Option<?a>"), self.new_local("std::option::Option<?b>")
+        l_da, l_db = self.new_local("isize"), self.new_local("isize")
+        sw_a = self.new_block([], None)
+        nx_b = self.new_block([], None)
+        sw_b = self.new_block([], None)
+        both = self.new_block([], None)
+        none = self.new_block([], None)
+        unreach = self.new_block([], {"k": "unreachable", "line": line})
+        mk_next = lambda ty, ref, dst, to: {"k": "call", "fn": fnrec("<%s as std::iter::Iterator>::next" % ty), "args": [{"m": P(ref)}], "dest": P(dst),
+                                            "dty": self.locals[dst]["ty"], "t": to, "unwind": None, "exp": False, "line": line, "inl": "fuse"}
+        self.blocks[bi]["stmts"].append(A(P(l_ra), {"k": "ref", "mut": True, "place": P(l_a)}))
+        self.blocks[bi]["term"] = mk_next(a_ty, l_ra, l_na, sw_a)
+        self.blocks[sw_a]["stmts"] = [A(P(l_da), {"k": "discr", "place": P(l_na), "adt": "std::option::Option"})]
+        self.blocks[sw_a]["term"] = {"k": "switch", "d": {"m": P(l_da)}, "dty": "isize", "targets": [[0, none], [1, nx_b]], "otherwise": unreach, "line": line}
+        self.blocks[nx_b]["stmts"] = [A(P(l_rb), {"k": "ref", "mut": True, "place": P(l_b)})]
+        self.blocks[nx_b]["term"] = mk_next(b_ty, l_rb, l_nb, sw_b)
+        self.blocks[sw_b]["stmts"] = [A(P(l_db), {"k": "discr", "place": P(l_nb), "adt": "std::option::Option"})]
+        self.blocks[sw_b]["term"] = {"k": "switch", "d": {"m": P(l_db)}, "dty": "isize", "targets": [[0, none], [1, both]], "otherwise": unreach, "line": line}
+        l_pair = self.new_local("(?a, ?b)")
+        self.blocks[both]["stmts"] = [
+            A(P(l_pair), {"k": "agg", "ak": "tuple", "fields": [{"c": P(l_na, some, fld)}, {"c": P(l_nb, some, fld)}]}),
+            A(dest, {"k": "agg", "ak": "adt", "def": "std::option::Option", "variant": "Some", "vi": 1, "field_names": ["0"], "fields": [{"m": P(l_pair)}]}, dty)]
+        self.blocks[both]["term"] = {"k": "goto", "t": cont, "line": line}
+        self.blocks[none]["stmts"] = [A(dest, {"k": "agg", "ak": "adt", "def": "std::option::Option", "variant": "None", "vi": 0, "field_names": [], "fields": []}, dty)]
+        self.blocks[none]["term"] = {"k": "goto", "t": cont, "line": line}
+        for b in (sw_a, nx_b, sw_b, both, none):
+            self.origin.setdefault(b, "adaptor:zip")
+        self.inlined.append(("adaptor:zip", bi))
+        return True
+
+    def _fuse_zip_lockstep(self, bi, site, line):
+        """zip of two slices:  if k < a.len() && k < b.len() { Some((&a[k], &b[k])); k += 1 } else { None }"""
+        _, l_sa, l_sb, l_k = site
+        t = self.blocks[bi]["term"]
+        cont, dest, dty = t["t"], t["dest"], t.get("dty")
+        P = lambda l, *proj: {"l": l, "p": list(proj)}
+        A = lambda lhs, rv, ty=None: {"k": "assign", "lhs": lhs, "rv": rv, "lty": ty, "line": line, "exp": False, "inl": "adaptor"}
+        K = lambda v, ty: {"k": {"ty": ty, "val": {"kind": "int", "v": v}, "dbg": str(v)}}
+
+        def len_fn(l):
+            n = "std::vec::Vec::<T, A>::len" if "std::vec::Vec<" in self.locals[l]["ty"] else "core::slice::<impl [T]>::len"
+            return {"k": {"ty": "fn", "kind": "fn", "def": n, "def_id": n, "gargs": [], "res": n}}
+        l_la, l_lb = self.new_local("usize"), self.new_local("usize")
+        l_ca, l_cb = self.new_local("bool"), self.new_local("bool")
+        l_xa, l_xb = self.new_local("&?a"), self.new_local("&?b")
+        l_pair = self.new_local("(&?a, &?b)")
+        test_a = self.new_block([], None)
+        len_b = self.new_block([], None)
+        test_b = self.new_block([], None)
+        both = self.new_block([], None)
+        none = self.new_block([], None)
+        call = lambda fn, arg, dst, to: {"k": "call", "fn": fn, "args": [{"c": P(arg)}], "dest": P(dst), "dty": "usize", "t": to, "unwind": None,
+                                         "exp": False, "line": line, "inl": "adaptor"}
+        self.blocks[bi]["term"] = call(len_fn(l_sa), l_sa, l_la, test_a)
+        self.blocks[test_a]["stmts"] = [A(P(l_ca), {"k": "bin", "op": "Lt", "a": {"c": P(l_k)}, "b": {"c": P(l_la)}, "aty": "usize"}, "bool")]
+        self.blocks[test_a]["term"] = {"k": "switch", "d": {"m": P(l_ca)}, "dty": "bool", "targets": [[0, none]], "otherwise": len_b, "line": line}
+        self.blocks[len_b]["term"] = call(len_fn(l_sb), l_sb, l_lb, test_b)
+        self.blocks[test_b]["stmts"] = [A(P(l_cb), {"k": "bin", "op": "Lt", "a": {"c": P(l_k)}, "b": {"c": P(l_lb)}, "aty": "usize"}, "bool")]
+        self.blocks[test_b]["term"] = {"k": "switch", "d": {"m": P(l_cb)}, "dty": "bool", "targets": [[0, none]], "otherwise": both, "line": line}
+        self.blocks[both]["stmts"] = [
+            A(P(l_xa), {"k": "ref", "mut": False, "place": P(l_sa, "deref", {"idx": l_k})}),
+            A(P(l_xb), {"k": "ref", "mut": False, "place": P(l_sb, "deref", {"idx": l_k})}),
+            A(P(l_pair), {"k": "agg", "ak": "tuple", "fields": [{"c": P(l_xa)}, {"c": P(l_xb)}]}),
+            A(dest, {"k": "agg", "ak": "adt", "def": "std::option::Option", "variant": "Some", "vi": 1, "field_names": ["0"], "fields": [{"m": P(l_pair)}]}, dty),
+            A(P(l_k), {"k": "bin", "op": "Add", "a": {"c": P(l_k)}, "b": K(1, "usize"), "aty": "usize"}, "usize")]
+        self.blocks[both]["term"] = {"k": "goto", "t": cont, "line": line}
+        self.blocks[none]["stmts"] = [A(dest, {"k": "agg", "ak": "adt", "def": "std::option::Option", "variant": "None", "vi": 0, "field_names": [], "fields": []}, dty)]
+        self.blocks[none]["term"] = {"k": "goto", "t": cont, "line": line}
+        for b in (test_a, len_b, test_b, both, none):
+            self.origin.setdefault(b, "adaptor:zip")
+        self.inlined.append(("adaptor:zip-slices", bi))
+        return True
+
+    def _fuse_slice_next(self, view, bi, line):
+        """`dest = slice::Iter::next(&mut it)` inside a fused pipeline, `it` built by `s.iter()` (or standing for a
+        `&[T]` handed to zip):  if k < s.len() { Some(&s[k++]) } else { None }  with a counter k."""
+        t = self.blocks[bi]["term"]
+        pl = t["args"][0].get("m") or t["args"][0].get("c")
+        sl = self.__dict__.setdefault("slice_locals", {})
+        found = None
+        for _ in range(10):
+            if pl is not None and pl["p"] == ["deref"]:
+                pl = {"l": pl["l"], "p": []}
+            if pl is None or pl["p"]:
+                return False
+            if pl["l"] in sl:
+                found = sl[pl["l"]]
+                break
+            ds = view.defs().get(pl["l"], [])
+            if len(ds) != 1:
+                return False
+            bd, si, kind, payload = ds[0]
+            if kind == "assign" and payload["rv"]["k"] == "ref":
+                pl = payload["rv"]["place"]
+            elif kind == "assign" and payload["rv"]["k"] == "use":
+                pl = payload["rv"]["a"].get("m") or payload["rv"]["a"].get("c")
+            elif kind == "call":
+                f = call_target(payload)
+                if not f or f.get("def") != "core::slice::<impl [T]>::iter" or len(payload["args"]) != 1:
+                    return False
+                spl = payload["args"][0].get("m") or payload["args"][0].get("c")
+                if spl is None or spl["p"]:
+                    return False
+                sites = self.__dict__.setdefault("slice_sites", {})
+                if bd not in sites:
+                    l_s = self.new_local(self.locals[spl["l"]]["ty"])
+                    l_k = self.new_local("usize", name=None)
+                    self.blocks[bd]["stmts"] += [
+                        {"k": "assign", "lhs": {"l": l_s, "p": []}, "rv": {"k": "use", "a": {"c": {"l": spl["l"], "p": []}}}, "lty": None, "line": line, "exp": False, "inl": "adaptor"},
+                        {"k": "assign", "lhs": {"l": l_k, "p": []}, "rv": {"k": "use", "a": {"k": {"ty": "usize", "val": {"kind": "int", "v": 0}, "dbg": "0"}}},
+                         "lty": "usize", "line": line, "exp": False, "inl": "adaptor"}]
+                    sites[bd] = (l_s, l_k)
+                found = sites[bd]
+                break
+            else:
+                return False
+        if found is None:
+            return False
+        l_s, l_k = found
+        cont, dest, dty = t["t"], t["dest"], t.get("dty")
+        P = lambda l, *proj: {"l": l, "p": list(proj)}
+        A = lambda lhs, rv, ty=None: {"k": "assign", "lhs": lhs, "rv": rv, "lty": ty, "line": line, "exp": False, "inl": "adaptor"}
+        K = lambda v, ty: {"k": {"ty": ty, "val": {"kind": "int", "v": v}, "dbg": str(v)}}
+        l_len = self.new_local("usize")
+        l_c = self.new_local("bool")
+        l_x = self.new_local("&?")
+        test = self.new_block([], None)
+        some_b = self.new_block([], None)
+        none_b = self.new_block([], None)
+        fn_len = {"k": {"ty": "fn", "kind": "fn", "def": "core::slice::<impl [T]>::len", "def_id": "core::slice::<impl [T]>::len", "gargs": [], "res": "core::slice::<impl [T]>::len"}}
+        s_is_vec = self.locals[l_s]["ty"].startswith("&std::vec::Vec<") or self.locals[l_s]["ty"].startswith("&mut std::vec::Vec<")
+        if s_is_vec:
+            fn_len["k"]["def"] = fn_len["k"]["def_id"] = fn_len["k"]["res"] = "std::vec::Vec::<T, A>::len"
+        self.blocks[bi]["term"] = {"k": "call", "fn": fn_len, "args": [{"c": P(l_s)}], "dest": P(l_len), "dty": "usize", "t": test, "unwind": None,
+                                   "exp": False, "line": line, "inl": "adaptor"}
+        self.blocks[test]["stmts"] = [A(P(l_c), {"k": "bin", "op": "Lt", "a": {"c": P(l_k)}, "b": {"c": P(l_len)}, "aty": "usize"}, "bool")]
+        self.blocks[test]["term"] = {"k": "switch", "d": {"m": P(l_c)}, "dty": "bool", "targets": [[0, none_b]], "otherwise": some_b, "line": line}
+        self.blocks[some_b]["stmts"] = [
+            A(P(l_x), {"k": "ref", "mut": False, "place": P(l_s, "deref", {"idx": l_k})}),
+            A(dest, {"k": "agg", "ak": "adt", "def": "std::option::Option", "variant": "Some", "vi": 1, "field_names": ["0"], "fields": [{"c": P(l_x)}]}, dty),
+            A(P(l_k), {"k": "bin", "op": "Add", "a": {"c": P(l_k)}, "b": K(1, "usize"), "aty": "usize"}, "usize")]
+        self.blocks[some_b]["term"] = {"k": "goto", "t": cont, "line": line}
+        self.blocks[none_b]["stmts"] = [A(dest, {"k": "agg", "ak": "adt", "def": "std::option::Option", "variant": "None", "vi": 0, "field_names": [], "fields": []}, dty)]
+        self.blocks[none_b]["term"] = {"k": "goto", "t": cont, "line": line}
+        for b in (test, some_b, none_b):
+            self.origin.setdefault(b, "adaptor:slice-iter")
+        self.inlined.append(("adaptor:slice-iter", bi))
+        return True
+
+    def _desugar_count(self, bi, line):
+        t = self.blocks[bi]["term"]
+        it_op = t["args"][0]
+        it_place = it_op.get("m") or it_op.get("c")
+        if it_place is None or it_place["p"]:
+            return False
+        it_ty = self.locals[it_place["l"]]["ty"]
+        m_ = re.match(r"^std::iter::(Map|TakeWhile|Filter)<(.*)>$", it_ty)
+        if not m_:
+            return False
+        cont, dest, dty = t["t"], t["dest"], t.get("dty")
+        P = lambda l, *proj: {"l": l, "p": list(proj)}
+        A = lambda lhs, rv, ty=None: {"k": "assign", "lhs": lhs, "rv": rv, "lty": ty, "line": line, "exp": False, "inl": "adaptor"}
+        U = lambda op: {"k": "use", "a": op}
+        K = lambda v, ty: {"k": {"ty": ty, "val": {"kind": "int", "v": v}, "dbg": str(v)}}
+        l_it = self.new_local(it_ty)
+        l_ref = self.new_local("&mut " + it_ty)
+        l_next = self.new_local("std::option::Option<?>")
+        l_d = self.new_local("isize")
+        l_n = self.new_local("usize", name=None)
+        head = self.new_block([], None)
+        sw = self.new_block([], None)
+        inc = self.new_block([], None)
+        done = self.new_block([], None)
+        unreach = self.new_block([], {"k": "unreachable", "line": line})
+        fnrec = {"k": {"ty": "fn", "kind": "fn", "def": "std::iter::Iterator::next", "def_id": "std::iter::Iterator::next", "gargs": [],
+                       "res": "<%s as std::iter::Iterator>::next" % it_ty}}
+        self.blocks[bi]["stmts"] += [A(P(l_it), U(it_op), it_ty), A(P(l_n), U(K(0, "usize")), "usize")]
+        self.blocks[bi]["term"] = {"k": "goto", "t": head, "line": line, "inl": "adaptor:count"}
+        self.blocks[head]["stmts"] = [A(P(l_ref), {"k": "ref", "mut": True, "place": P(l_it)})]
+        self.blocks[head]["term"] = {"k": "call", "fn": fnrec, "args": [{"m": P(l_ref)}], "dest": P(l_next), "dty": self.locals[l_next]["ty"],
+                                     "t": sw, "unwind": None, "exp": False, "line": line, "inl": "fuse"}
+        self.blocks[sw]["stmts"] = [A(P(l_d), {"k": "discr", "place": P(l_next), "adt": "std::option::Option"})]
+        self.blocks[sw]["term"] = {"k": "switch", "d": {"m": P(l_d)}, "dty": "isize", "targets": [[0, done], [1, inc]], "otherwise": unreach, "line": line}
+        self.blocks[inc]["stmts"] = [A(P(l_n), {"k": "bin", "op": "Add", "a": {"c": P(l_n)}, "b": K(1, "usize"), "aty": "usize"}, "usize")]
+        self.blocks[inc]["term"] = {"k": "goto", "t": head, "line": line}
+        self.blocks[done]["stmts"] = [A(dest, U({"c": P(l_n)}), dty)]
+        self.blocks[done]["term"] = {"k": "goto", "t": cont, "line": line}
+        for b in (head, sw, inc, done):
+            self.origin.setdefault(b, "adaptor:count")
+        self.inlined.append(("adaptor:count", bi))
+        return True
+
+    def _fuse_next(self, bi, bd, kind, closure, line):
+        """Rewrite `dest = <Adaptor as Iterator>::next(&mut a)` at block bi; the adaptor was built at block bd by
+        `src.kind(closure)`."""
+        craw = closure.raw
+        if craw["argc"] != 2:
+            return False
+        dt = self.blocks[bd]["term"]
+        sites = self.__dict__.setdefault("pipe_sites", {})
+        if bd not in sites:
+            src_op, cl_op = dt["args"][0], dt["args"][1]
+            spl = src_op.get("m") or src_op.get("c")
+            cpl = cl_op.get("m") or cl_op.get("c")
+            if spl is None or cpl is None or spl["p"] or cpl["p"]:
+                return False
+            src_ty = self.locals[spl["l"]]["ty"]
+            l_src = self.new_local(src_ty)
+            l_cl = self.new_local(self.locals[cpl["l"]]["ty"])
+            cp = lambda pl: {"k": "use", "a": {"c": {"l": pl["l"], "p": []}}}
+            self.blocks[bd]["stmts"] += [
+                {"k": "assign", "lhs": {"l": l_src, "p": []}, "rv": cp(spl), "lty": src_ty, "line": line, "exp": False, "inl": "adaptor"},
+                {"k": "assign", "lhs": {"l": l_cl, "p": []}, "rv": cp(cpl), "lty": None, "line": line, "exp": False, "inl": "adaptor"}]
+            sites[bd] = (l_src, l_cl, src_ty)
+        l_src, l_cl, src_ty = sites[bd]
+        t = self.blocks[bi]["term"]
+        cont, dest, dty = t["t"], t["dest"], t.get("dty")
+        arg_ty = craw["locals"][2]["ty"]
+        by_ref = kind in ("take_while", "filter")
+        item_ty = arg_ty[1:].lstrip() if by_ref and arg_ty.startswith("&") else arg_ty
+        P = lambda l, *proj: {"l": l, "p": list(proj)}
+        A = lambda lhs, rv, ty=None: {"k": "assign", "lhs": lhs, "rv": rv, "lty": ty, "line": line, "exp": False, "inl": "adaptor"}
+        U = lambda op: {"k": "use", "a": op}
+        l_ref = self.new_local("&mut " + src_ty)
+        l_next = self.new_local("std::option::Option<%s>" % item_ty)
+        l_d = self.new_local("isize")
+        l_x = self.new_local(item_ty, name=None)
+        l_clref = self.new_local("&mut closure")
+        l_args = self.new_local("(%s,)" % arg_ty)
+        l_r = self.new_local(self.ret_ty(closure))
+        bare = src_ty[5:] if src_ty.startswith("&mut ") else src_ty
+        fnrec = lambda d, r: {"k": {"ty": "fn", "kind": "fn", "def": d, "def_id": d, "gargs": [], "res": r}}
+        sw = self.new_block([], None)
+        body = self.new_block([], None)
+        after = self.new_block([], None)
+        exit_none = self.new_block([], None)
+        exit_some = self.new_block([], None)
+        unreach = self.new_block([], {"k": "unreachable", "line": line})
+        head = bi if kind != "filter" else self.new_block([], None)
+        if kind == "filter":
+            self.blocks[bi]["term"] = {"k": "goto", "t": head, "line": line, "inl": "adaptor:" + kind}
+            self.blocks[head]["stmts"] = []
+        self.blocks[head]["stmts"] = self.blocks[head]["stmts"] + [A(P(l_ref), {"k": "ref", "mut": True, "place": P(l_src)})]
+        self.blocks[head]["term"] = {"k": "call", "fn": fnrec("std::iter::Iterator::next", "<%s as std::iter::Iterator>::next" % bare),
+                                     "args": [{"m": P(l_ref)}], "dest": P(l_next), "dty": self.locals[l_next]["ty"],
+                                     "t": sw, "unwind": None, "exp": False, "line": line, "inl": "fuse"}
+        self.blocks[sw]["stmts"] = [A(P(l_d), {"k": "discr", "place": P(l_next), "adt": self.locals[l_next]["ty"]})]
+        self.blocks[sw]["term"] = {"k": "switch", "d": {"m": P(l_d)}, "dty": "isize",
+                                   "targets": [[0, exit_none], [1, body]], "otherwise": unreach, "line": line}
+        some = {"dc": "Some", "vi": 1}
+        fld = {"f": 0, "name": "0", "adt": "std::option::Option"}
+        st = [A(P(l_x), U({"m": P(l_next, some, fld)}), item_ty),
+              A(P(l_clref), {"k": "ref", "mut": True, "place": P(l_cl)})]
+        if by_ref:
+            l_xr = self.new_local("&" + item_ty)
+            st.append(A(P(l_xr), {"k": "ref", "mut": False, "place": P(l_x)}))
+            st.append(A(P(l_args), {"k": "agg", "ak": "tuple", "fields": [{"m": P(l_xr)}]}))
+        else:
+            st.append(A(P(l_args), {"k": "agg", "ak": "tuple", "fields": [{"c": P(l_x)}]}))
+        self.blocks[body]["stmts"] = st
+        self.blocks[body]["term"] = {"k": "call", "fn": fnrec("std::ops::FnMut::call_mut", closure.name),
+                                     "args": [{"m": P(l_clref)}, {"m": P(l_args)}], "dest": P(l_r),
+                                     "dty": self.locals[l_r]["ty"], "t": after, "unwind": None, "exp": False,
+                                     "line": line, "inl": "adaptor-call"}
+        self.blocks[body]["term"]["fn"]["k"]["res_id"] = closure.id
+        opt = lambda variant, vi, fields: {"k": "agg", "ak": "adt", "def": "std::option::Option", "variant": variant,
+                                           "vi": vi, "field_names": ["0"] if fields else [], "fields": fields}
+        G = lambda b: {"k": "goto", "t": b, "line": line}
+        if kind == "map":
+            self.blocks[after]["stmts"] = [A(dest, opt("Some", 1, [{"m": P(l_r)}]), dty)]
+            self.blocks[after]["term"] = G(cont)
+            self.blocks[exit_some]["term"] = G(cont)
+        elif kind == "take_while":
+            self.blocks[after]["term"] = {"k": "switch", "d": {"m": P(l_r)}, "dty": "bool", "targets": [[0, exit_none]], "otherwise": exit_some, "line": line}
+            self.blocks[exit_some]["stmts"] = [A(dest, opt("Some", 1, [{"m": P(l_x)}]), dty)]
+            self.blocks[exit_some]["term"] = G(cont)
+        else:
+            self.blocks[after]["term"] = {"k": "switch", "d": {"m": P(l_r)}, "dty": "bool", "targets": [[0, head]], "otherwise": exit_some, "line": line}
+            self.blocks[exit_some]["stmts"] = [A(dest, opt("Some", 1, [{"m": P(l_x)}]), dty)]
+            self.blocks[exit_some]["term"] = G(cont)
+        self.blocks[exit_none]["stmts"] = [A(dest, opt("None", 0, []), dty)]
+        self.blocks[exit_none]["term"] = G(cont)
+        for b in (sw, body, after, exit_none, exit_some) + ((head,) if head != bi else ()):
+            self.origin.setdefault(b, "adaptor:" + kind)
+        self.inlined.append(("adaptor:" + kind, bi))
+        return True
+
     def combinator(self, bi, spec, line, view):
         """recv.comb(f)  ==>  match recv { V1(x) => .., V2(y) => .. } with the closure / function call explicit."""
         kind, arms = spec[0], spec[1]
@@ -1029,6 +1475,17 @@ class _Builder:
                     continue
             except Exception:
                 pass
+            fused = False
+            try:
+                for _ in range(12):
+                    if not (self.adaptors and self.fuse_one(view)):
+                        break
+                    fused = True
+                    view = self.snapshot()
+            except Exception:
+                pass
+            if fused:
+                changed = True
             nblocks = len(self.blocks)
             for bi in range(nblocks):
                 blk = self.blocks[bi]
@@ -1071,6 +1528,20 @@ class _Builder:
                     if cid is None:
                         cid = self.closure_of_operand(t["args"][0], view)
                     site_new = bi in self.origin or t.get("inl") is not None
+                    if cid is None and site_new:
+                        # a plain function handed over where a closure is expected (`read_at(r, addr, read_name)`)
+                        t0 = view.term_of_operand(t["args"][0])
+                        while t0[0] in ("ref", "deref"):
+                            t0 = t0[1]
+                        fb = self.facts.raw_body(t0[1]) if t0[0] == "fn" and isinstance(t0[1], str) else None
+                        tp = t["args"][1].get("m") or t["args"][1].get("c")
+                        if fb is not None and fb.kind != "Closure" and fb.id not in chain and fb.id != self.root_id and not self.keep(fb.name) and tp is not None:
+                            ops = [{"m": {"l": tp["l"], "p": tp["p"] + [{"f": k, "name": str(k), "adt": "tuple"}]}} for k in range(fb.argc)]
+                            new = self.splice(bi, fb, ops, False, line)
+                            for nb in new:
+                                stack_of[nb] = chain + (fb.id,)
+                            changed = True
+                            continue
                     if cid and cid not in chain and cid != self.root_id and (site_new or cid not in self.known_ids):
                         callee = self.facts.bodies[cid]
                         tup = t["args"][1]
